@@ -8,7 +8,7 @@ for spec in "$@"; do
   rsync -a --exclude .git --exclude '__pycache__' /repo/ "$d/"
   (cd "$d" && patch -s -p1 < /verif/seeded/$seed/patch.diff) || { echo "$seed: patch does not apply"; rm -rf "$d"; continue; }
   for p in $props; do
-    out=$(cd /verif && VERIF_REPO="$d" bin/check $p --tier quick 2>&1)
+    out=$(cd /verif && VERIF_REPO="$d" VERIF_EVIDENCE_DIR="$d/.evidence" bin/check $p --tier quick 2>&1)
     rc=$?
     nv=$(echo "$out" | grep -c '^VIOLATION')
     first=$(echo "$out" | grep 'obligation=' | sed 's/ witness=.*//; s/ *obligation=//' | head -3 | tr '\n' ' ' | cut -c1-260)
